@@ -164,13 +164,6 @@ Qed.
 (* sign = orientation                                                  *)
 Local Open Scope R_scope.
 
-Definition cellpts (pos : Z -> RV3) (e : elem) : list RV3 := map pos (conn_of e).
-Definition odotR (pos : Z -> RV3) (e : elem) (f : face) : R :=
-  outward2 ROps (cellpts pos e) (face_pts pos f).
-(* the "convex cell" predicate: the vertex mean is strictly inside every face
-   plane, faces taken in the cell's own (table) orientation *)
-Definition cell_outward (pos : Z -> RV3) (e : elem) : Prop :=
-  forall h, In h (elem_faces e) -> 0 < odotR pos e h.
 Definition sgnR (x : R) : R := if Rlt_dec x 0 then -1 else 1.
 
 (* the representative of an own face is that face or its reversal *)
